@@ -470,6 +470,74 @@ EXAMPLES = [
     dict(text="select * from {mst}; delete from {mst}"),
 ]
 
+# ---- a FOREIGN database (one the user has no privilege on) in every source position the grammar offers --------------------
+JOIN_SPELLINGS = ["full join", "inner join", "join", "left outer join", "left join", "right outer join", "right join", "outer join"]
+
+
+def source_position_examples():
+    """statement texts with the user's own database in every position but one, which names a foreign database.
+    Orientation A: own = {db} (ro READ, wo WRITE), foreign = {odb}; orientation B: own = {odb} (other ALL), foreign = {db}.
+    The db= URL parameter is always the own database.  Qualified names are quoted (the join grammar needs it)."""
+    out = []
+    for own, foreign, urldb, own_m, for_m in (("{db}", "{odb}", "db", MST, "c19m2"), ("{odb}", "{db}", "odb", "c19m2", MST)):
+        O = '"%s"."autogen"."%s"' % (own, own_m)
+        F = '"%s"."autogen"."%s"' % (foreign, for_m)
+        F2 = '"%s".."%s"' % (foreign, for_m)
+        SO = "(select v, host from %s)" % O
+        SF = "(select v, host from %s)" % F
+
+        def add(pos, text):
+            out.append(dict(text=text, urldb=urldb, position=pos))
+        add("plain", "select * from %s" % F)
+        add("plain-default-rp", "select * from %s" % F2)
+        add("list-second", "select * from %s, %s" % (O, F))
+        add("list-first", "select * from %s, %s" % (F, O))
+        add("regex", 'select * from "%s"."autogen"./c19.*/' % foreign)
+        add("regex-default-rp", 'select * from "%s"../.*/' % foreign)
+        add("aggregate", "select count(v) from %s group by host" % F)
+        add("explain", "explain select * from %s" % F)
+        for j in JOIN_SPELLINGS:
+            for side in ("left", "right"):
+                for operand in ("measurement", "subquery"):
+                    a, b = (F, O) if side == "left" else (O, F)
+                    if operand == "subquery":
+                        a, b = (SF, SO) if side == "left" else (SO, SF)
+                    add("join:%s:%s:%s" % (j, side, operand), "select a.v, b.v from %s as a %s %s as b on a.host = b.host group by host" % (a, j, b))
+        add("join:full join:right:measurement:no-group", "select a.v, b.v from %s as a full join %s as b on a.host = b.host" % (O, F))
+        add("join:full join:left:measurement:no-group", "select a.v, b.v from %s as a full join %s as b on a.host = b.host" % (F, O))
+        add("join-3way:last", "select * from %s as a full join %s as b on a.host = b.host full join %s as c on a.host = c.host" % (O, O, F))
+        add("join-3way:middle", "select * from %s as a full join %s as b on a.host = b.host full join %s as c on a.host = c.host" % (O, F, O))
+        add("join-in-subquery:right", "select * from (select a.v, b.v from %s as a full join %s as b on a.host = b.host)" % (O, F))
+        add("subquery-depth1", "select * from (select v from %s)" % F)
+        add("subquery-depth2", "select * from (select v from (select v from %s))" % F)
+        add("subquery-list-second", "select * from (select v from %s), (select v from %s)" % (O, F))
+        add("subquery-aliased", "select * from (select v from %s) as t" % F)
+        for u in ("union", "union all", "union by name", "union all by name"):
+            add("%s:right-arm" % u, "select v from %s %s select v from %s" % (O, u, F))
+            add("%s:left-arm" % u, "select v from %s %s select v from %s" % (F, u, O))
+        add("union-in-subquery:right-arm", "select * from (select v from %s union all select v from %s)" % (O, F))
+        add("cte", "with t as (select v from %s) select * from t" % F)
+        add("cte-second", "with t as (select v from %s), u as (select v from %s) select * from t, u" % (O, F))
+        add("into-target", "select * into \"%s\"..\"c19spi_{tag}\" from %s" % (foreign, O))
+        add("into-source", "select * into \"%s\"..\"c19spo_{tag}\" from %s" % (own, F))
+        add("table-function", "select * from rca(%s, '{{}}')" % own_m)
+        add("delete-from", "delete from %s" % F2)
+        add("drop-series-from", "drop series from %s" % F2)
+        for what in ("series", "tag keys", "field keys", "measurements", "retention policies", "tag values",
+                     "series cardinality", "series exact cardinality", "measurement cardinality", "measurement exact cardinality",
+                     "tag key cardinality", "field key cardinality", "tag values cardinality", "downsamples", "measurements detail"):
+            tail = " with key = host" if what.startswith("tag values") else (" with measurement = %s" % for_m if what.endswith("detail") else "")
+            add("show %s on" % what, 'show %s on "%s"%s' % (what, foreign, tail))
+        for what in ("series", "tag keys", "field keys", "tag values", "series exact cardinality", "tag key exact cardinality", "tag values exact cardinality"):
+            tail = " with key = host" if what.startswith("tag values") else ""
+            add("show %s from" % what, "show %s from %s%s" % (what, F2, tail))
+    for e in out:
+        e["srcpos"] = True
+    return out
+
+
+EXAMPLES += source_position_examples()
+
 # floor: what the property statement itself implies, independent of what RequiredPrivileges() of the tree under test says
 FLOOR_ADMIN = {"CreateDatabaseStatement", "DropDatabaseStatement", "CreateUserStatement", "DropUserStatement", "GrantStatement",
                "GrantAdminStatement", "RevokeStatement", "RevokeAdminStatement", "SetPasswordUserStatement", "SetConfigStatement",
